@@ -75,9 +75,20 @@ class SetEncoder(AbstractItemEncoder):
         namedTypes = value.componentType
         substrate = self.protoDict()
 
-        for idx, (key, subValue) in enumerate(value.items()):
-            if namedTypes and namedTypes[idx].isOptional and not value[idx].isValue:
+        for idx, key in enumerate(value.keys()):
+            # look, don't touch: encoding must not instantiate absent
+            # components in the value being encoded
+            subValue = value.getComponentByPosition(idx, instantiate=False)
+
+            if namedTypes and subValue is univ.noValue:
+                if namedTypes[idx].isOptional:
+                    continue
+
+                subValue = value[idx]
+
+            if namedTypes and namedTypes[idx].isOptional and not subValue.isValue:
                 continue
+
             substrate[key] = encodeFun(subValue, **options)
         return substrate
 
